@@ -2215,7 +2215,7 @@ Proof.
     - apply Hst. apply (H4 p a q). apply Ht, H.
     - destruct (H4 p a q (proj1 (Ht _) H)) as [_ [[Ha|Ha] _]]; [left; apply Hg, Ha | right; exact Ha].
     - apply Hst. apply (H4 p a q). apply Ht, H. }
-  rewrite Hwf. destruct (tnfa_wf_b _); [|exact I].
+  rewrite Hwf. clear Hwf. destruct (tnfa_wf_b _); [|exact I].
   unfold opt_rel, tnfa_equiv. cbn [tnQ tnS tnD tnq0 tnF tneps].
   repeat split; try (apply Hst); try (apply Hg); try tauto.
   - intros Hs. unfold tn_step in *. cbn [tnD] in *. apply group_nfa_target. apply Ht. apply group_nfa_target. exact Hs.
